@@ -703,7 +703,7 @@ func (g *Grammar) noMatchEndsInPanic(w *World, b *ssa.BasicBlock, isMatchTest fu
 }
 
 func ruleGExpect(w *World, r *Report) {
-	r.rule("G-EXPECT", "(1) the token set that announces a primary expression equals the token set the primary-expression parser handles; (2) the node-test parser's no-match path panics; (3) an unterminated string and both malformed qualified-name forms panic in the scanner; (4) the function-name and axis-name dispatches of the builder have a default that returns a non-nil error; (5) an unbound namespace prefix panics")
+	r.rule("G-EXPECT", "(1) for every token form the predicate that announces a primary expression says yes to, the primary-expression parser (followed on a token stream) builds a node or panics — it never hands back a nil operand; (2) the node-test parser's no-match path panics; (3) an unterminated string and both malformed qualified-name forms panic in the scanner; (4) the function-name and axis-name dispatches of the builder have a default that returns a non-nil error; (5) an unbound namespace prefix panics")
 	g, err := w.grammar()
 	if err != nil {
 		r.bad("ANCHOR", "G-EXPECT", "", err.Error())
